@@ -54,3 +54,63 @@ func H_C19_parse(n1, n2 int) {
 }
 
 func firstOf(b []*RootBlock, _ ReferenceMap) []*RootBlock { return b }
+
+// H_C19_reentrant(d, _): overlapping use of one tree without goroutines. After a walk
+// that was cut short (Post returned false), walk A runs over document d; at a
+// solver-chosen callback of A a complete walk B and a complete render of the same
+// tree run inside the callback (a sequential stand-in for "at the same time": any
+// state shared between calls - pooled scratch space, package-level buffers, memoised
+// fields - is used by two calls at once). A must visit exactly the nodes a plain
+// recursion visits, and a render whose FilterTag callback starts a nested render must
+// produce the bytes of an undisturbed render.
+func H_C19_reentrant(d, _ int) {
+	blocks, refs := Parse([]byte(c18Docs[d]))
+	root := blocks[0].AsNode()
+	// reference pre-order
+	var want []Node
+	var rec func(n Node)
+	rec = func(n Node) {
+		want = append(want, n)
+		for i := 0; i < n.ChildCount(); i++ {
+			rec(n.Child(i))
+		}
+	}
+	rec(root)
+	// a walk that is aborted at its first Post
+	Walk(root, &WalkOptions{Post: func(c *Cursor) bool { return false }})
+	at := vconcrete(nondetInt(0, len(want)-1))
+	var got []Node
+	inner := 0
+	Walk(root, &WalkOptions{
+		Pre: func(c *Cursor) bool {
+			if len(got) == at {
+				Walk(root, &WalkOptions{Pre: func(c *Cursor) bool { inner++; return true }})
+				renderWith(&HTMLRenderer{ReferenceMap: refs, FilterTag: FilterTagGFM}, blocks)
+			}
+			got = append(got, c.Node())
+			return true
+		},
+		Post: func(c *Cursor) bool { return true },
+	})
+	ok := len(got) == len(want) && inner == len(want)
+	if ok {
+		for i := range got {
+			ok = ok && got[i] == want[i]
+		}
+	}
+	check(ok, "C19.reentrant-walk")
+	// nested render from inside the FilterTag callback of an outer render
+	plain := renderWith(&HTMLRenderer{ReferenceMap: refs, FilterTag: FilterTagGFM}, blocks)
+	calls := 0
+	outer := &HTMLRenderer{ReferenceMap: refs}
+	outer.FilterTag = func(tag []byte) bool {
+		name := string(tag) // the callback's view of the name must survive the nested call
+		calls++
+		if calls == 1 {
+			renderWith(&HTMLRenderer{ReferenceMap: refs, FilterTag: FilterTagGFM}, blocks)
+		}
+		return FilterTagGFM([]byte(name)) && FilterTagGFM(tag)
+	}
+	check(vsame(renderWith(outer, blocks), plain), "C19.reentrant-render")
+	vdigest(plain)
+}
